@@ -45,11 +45,29 @@ pub struct AddrSeed {
     pub job: u64,
 }
 
+/// A number unique among the `vrun` processes alive on this machine, claimed by holding a
+/// listening socket on 127.0.0.9:(1100 + n) for the life of the process. Two processes that ran
+/// jobs on the same loopback addresses at the same time (a background sweep next to a manual run)
+/// made the engine's `bind` fail with AddrInUse, which surfaced as a host panic of the job.
+fn process_slot() -> u64 {
+    static SLOT: std::sync::OnceLock<(u64, Option<std::net::TcpListener>)> = std::sync::OnceLock::new();
+    SLOT.get_or_init(|| {
+        for n in 0..240u64 {
+            if let Ok(l) = std::net::TcpListener::bind(("127.0.0.9", 1100 + n as u16)) {
+                return (n, Some(l));
+            }
+        }
+        (std::process::id() as u64 % 240, None)
+    })
+    .0
+}
+
 pub fn host_configs(layout: &Layout, seed: AddrSeed) -> Vec<RuntimeConfig> {
     match layout {
         Layout::Local(p) => vec![RuntimeConfig::local(*p).unwrap()],
         Layout::Hosts(cores) => {
-            let b = 10 + (seed.shard % 200) as u64;
+            let _ = seed.shard;
+            let b = 10 + process_slot();
             let c = 1 + (seed.job % 250);
             // concurrent `vrun check` processes (e.g. a background sweep) get disjoint port ranges
             let run_id: u64 = std::env::var("VERIF_RUN_ID").ok().and_then(|s| s.parse().ok()).unwrap_or(0) % 12;
@@ -244,6 +262,12 @@ pub fn run_job<R: Send + 'static>(
                         }
                         drop(queues);
                         drop(w);
+                        {
+                            let p = ctx.panics.lock().unwrap();
+                            if !p.is_empty() {
+                                d.push_str(&format!("  panics of the job so far: {:?}\n", &p[..p.len().min(4)]));
+                            }
+                        }
                         // release anything held by the gate so that threads can unwind if possible
                         ctx.gate_open();
                         return JobOutcome::Deadlock(Deadlock {
